@@ -72,6 +72,9 @@ type w7Ops struct {
 	// ShutdownHeld: the application is shut down (context cancelled, as the exit sequence or SIGTERM do) while a key
 	// is held, instead of after everything was unplugged
 	ShutdownHeld bool `json:"shutdown_held,omitempty"`
+	// NoWatcher: the inotify instance cannot be created (EMFILE); configuration changes cannot be noticed then (the
+	// user does not edit anything in these runs), everything else has to work as usual
+	NoWatcher bool `json:"no_watcher,omitempty"`
 }
 
 const keyA = 30 // KEY_A
@@ -109,6 +112,7 @@ func genW7(r *simrt.Rng) *w7Ops {
 		o.FloodUs = []int{300, 2000, 10000}[r.Intn(3)]
 	}
 	o.ShutdownHeld = r.Chance(0.3)
+	o.NoWatcher = r.Chance(0.05)
 	// the factory default of every class in use always exists at the start; the other three ranks per device at random
 	for _, gp := range []bool{false, true} {
 		used := false
@@ -370,6 +374,10 @@ func runW7(t *testing.T, job *worlds.Job, seed uint64, rp *worlds.Replay) worlds
 		fsnotify.Go = simrt.Go
 		fsnotify.Yield = simrt.Yield
 		fsnotify.NewWatcherErr = nil
+		if ops.NoWatcher {
+			fsnotify.NewWatcherErr = fmt.Errorf("too many open files")
+		}
+		defer func() { fsnotify.NewWatcherErr = nil }()
 		input.SimMonitorNewDevices = func(ctx context.Context) <-chan input.Device {
 			ch := make(chan input.Device)
 			mu.Lock()
@@ -693,6 +701,9 @@ func runW7(t *testing.T, job *worlds.Job, seed uint64, rp *worlds.Replay) worlds
 				break
 			}
 			_ = k
+			if ops.NoWatcher && (op.Kind == "edit" || op.Kind == "create" || op.Kind == "other") {
+				continue
+			}
 			switch op.Kind {
 			case "plug":
 				mu.Lock()
@@ -894,6 +905,9 @@ func runW7(t *testing.T, job *worlds.Job, seed uint64, rp *worlds.Replay) worlds
 	}
 	if ops.DiskUs > 0 {
 		ro.Faults["slow_storage"]++
+	}
+	if ops.NoWatcher {
+		ro.Faults["inotify_unavailable"]++
 	}
 	if ops.FloodUs > 0 {
 		ro.Faults["midi_input_all_the_time"]++
